@@ -55,7 +55,7 @@ CHECKS = {
    note="the generator's scoping rules were audited against llvm-tblgen-14; uses of a field after a let override may resolve to the declaration or an override identifier; reference sets of overridden fields are not asserted",
    technique="property-based testing with a by-construction oracle (scope-tracking program generator)"),
  "C13": dict(cat="fault_enumeration", design="§5 C13",
-   text="Soundness: 20000 well-formed SEM programs per quick run must produce no diagnostic in any file. Completeness: thirteen fault classes (undefined class / multiclass / identifier / field, missing include, dropped and surplus template argument, required positional arguments removed while named ones stay, type-incompatible value, operator arity +1/-1, deleted token in root / in an included file) are seeded one at a time at a generated eligible site; a diagnostic must intersect the site in the seeded file, and faults in the root must leave the included files clean.",
+   text="Soundness: 20000 well-formed SEM programs per quick run (incl. list pastes, !if over records, defm with class parents, records named after their defm and used as values) must produce no diagnostic in any file, nor may the 14 vendored LLVM-14 headers that llvm-tblgen-14 accepts as roots (Target.td, Intrinsics.td, …; LF and CRLF). Completeness: thirteen fault classes (undefined class / multiclass / identifier / field, missing include, dropped and surplus template argument, required positional arguments removed while named ones stay, type-incompatible value, operator arity +1/-1, deleted token in root / in an included file) are seeded one at a time at a generated eligible site; a diagnostic must intersect the site in the seeded file, and faults in the root must leave the included files clean.",
    note="well-formedness audited against llvm-tblgen-14 on its feature subset; token deletions restricted to ';', '=' (not before '{') and ':' whose absence is locally detectable; type faults use literals for which no TableGen conversion exists",
    technique="property-based testing + single-fault seeding over generated programs"),
  "C18": dict(cat="exploration", design="§5 C18",
